@@ -42,6 +42,12 @@ CHECKS = {
  "C19": ("model_checking", "TLA+ spec Session.tla (StateAfter / NextState threading): MC_Session invariant ChkIsUninterrupted includes the state the next iteration uses; trace validation (Trace_Session): per iteration recorded state = state bound to the history so far (first: user grid / normalised weights / uniform), points consistent with it (usedOk), checkpoint's next state = library refinement of the recorded state and data; uninterrupted, resumed, reloaded, rolled-back runs",
          "State ids are bit-exact (hexfloat) so 'exactly' is checked literally. MPI leg is checked with C04's driver.",
          "TLC; usedOk reconstruction tolerance 8-16 eps; library refinement functions used as the definition of 'refinement' (their correctness is C07 / C08)", "5/C19"),
+ "C12": ("model_checking", "TLA+ spec Loop.tla (per-rank loop machine: calls of an iteration, exactly one callback with exactly the results so far, stop iff false, Continue() for the built-in callback) explored by TLC (MC_Loop, MC_Session); trace validation (Trace_C12) of every integrand call / callback / return of serial and shim-MPI runs with scripted and built-in callbacks",
+         "Interleaving of integrand calls and callbacks is part of the trace, so 'exactly once after each iteration' and 'immediately' are checked; the built-in callback's answer must equal Continue(target > 0, class of the combined relative error).",
+         "TLC; MPI shim; the relative-error class is computed by the driver with the library's accumulate<weighted_with_variance>", "5/C12"),
+ "C20": ("model_checking", "TLA+ spec Session.tla: self-composition invariant ModeNonInterference (MC_Session); four-lane trace validation (Trace_C20): each run executed in the four callback modes, per-iteration checkpoint texts, stop decisions, returned checkpoint, exit status, bytes printed per rank and the written file compared by TLC",
+         "Equality across lanes is byte equality of checkpoint texts; summary printing is exercised on every channel-count / weight pattern incl. disabled and minimal channels, zero / constant / non-finite integrands.",
+         "TLC; MPI shim; stdout capture; ASan not used (exceptions and aborts are caught as rejected traces)", "5/C20"),
 }
 
 NOT_YET = {}
